@@ -205,6 +205,8 @@ func opaqueKindOf(t types.Type) string {
 		return "mutex"
 	case "cosmossdk.io/math.Int":
 		return "sdkint"
+	case "github.com/cosmos/cosmos-sdk/types.Coin":
+		return "coin"
 	case "strings.Builder":
 		return "builder"
 	case "github.com/cosmos/cosmos-sdk/x/nft/keeper.Keeper":
@@ -227,6 +229,8 @@ func (e *Exec) zero(t types.Type) Value {
 			return Opaque{Kind: "builder", Data: nil}
 		case "sdkint":
 			return Opaque{Kind: "sdkint", Data: nil}
+		case "coin":
+			return Opaque{Kind: "coin", Data: nil}
 		case "store":
 			return Opaque{Kind: "store", Data: nil}
 		}
